@@ -1,4 +1,5 @@
 """C02 - unsaved changes are never silently discarded on quit, edit or buffer switch."""
+import os
 import re
 
 from hypothesis import strategies as st
@@ -171,8 +172,36 @@ def run_unnamed(env, c):
     return Outcome(True, True, ["unnamed"])
 
 
+def run_dirreload(env, c):
+    """the edited 'file' is a directory: it can be opened but not read.  :e! must not mark the typed text saved."""
+    d = env.fresh()
+    os.makedirs(os.path.join(d, "adir"), exist_ok=True)
+    script = "se noaw\nse nowa\na\nprecious\n.\n" + "".join(x + "\n" for x in c["cmds"]) + "ec @@L@@\nb\nec @@M@@\nq\nec @@ALIVE@@\n"
+    r = runner.run_editor(env.paths["vi"], ["-s", "-e", "adir"], script.encode() + runner.EX_TRAILER, d, want_stats=False)
+    if r.timeout or r.crashed():
+        return Outcome(not r.crashed(), False, ["dirreload"], inconclusive=r.timeout, detail={"why": "editor crashed", "sig": r.signature(), "cmds": c["cmds"]})
+    out = r.out.decode("utf-8", "replace")
+    m = re.search(r"@@L@@(.*?)@@M@@", out, re.S)
+    rows = parse_list(m.group(1)) if m else []
+    if not any(r_[3] for r_ in rows):
+        return Outcome(False, True, ["dirreload"], detail={"why": "the typed text is in no file, but no buffer is flagged modified after %r" % c["cmds"], "listing": rows})
+    if "@@ALIVE@@" not in out:
+        return Outcome(False, True, ["dirreload"], detail={"why": ":q exited and discarded text that is in no file after %r" % c["cmds"]})
+    return Outcome(True, True, ["dirreload"])
+
+
+DIR_CMDS = [["e!"], ["e!", "e!"], ["e! +1"], ["e"], ["e!", "1p"], ["w"], ["w", "e!"], ["e! adir"], ["e! ./adir"]]
+
+
 def extra(env, tier, seed):
     import itertools
+    dviol = []
+    for cm in DIR_CMDS:
+        o = run_dirreload(env, {"kind": "dirreload", "cmds": cm})
+        if not o.ok and not o.inconclusive and len(dviol) < 2:
+            dviol.append({"case": {"kind": "dirreload", "cmds": cm}})
+    dres = {"name": "reload_of_an_unreadable_file", "exhaustive": True, "evaluations": len(DIR_CMDS), "distinct_nontrivial": len(DIR_CMDS),
+            "samples": DIR_CMDS[:3], "violations": dviol}
     seqs = [[a] for a in UN_ACTIONS] + [list(t) for t in itertools.product(UN_ACTIONS, repeat=2)]
     if tier != "quick":
         seqs += [list(t) for t in itertools.product(UN_ACTIONS[:8], repeat=3)]
@@ -181,13 +210,15 @@ def extra(env, tier, seed):
         o = run_unnamed(env, {"kind": "unnamed", "actions": sq})
         if not o.ok and not o.inconclusive and len(viol) < 3:
             viol.append({"case": {"kind": "unnamed", "actions": sq}})
-    return [{"name": "unnamed_buffer_all_write_sequences_le_%d" % (2 if tier == "quick" else 3), "exhaustive": True, "evaluations": len(seqs), "distinct_nontrivial": len(seqs),
+    return [dres, {"name": "unnamed_buffer_all_write_sequences_le_%d" % (2 if tier == "quick" else 3), "exhaustive": True, "evaluations": len(seqs), "distinct_nontrivial": len(seqs),
              "alphabet": UN_ACTIONS, "samples": [["2,3w part"], ["w !cat >/dev/null"], ["1w part", "w"]], "violations": viol}]
 
 
 def run_case(env, c):
     if c.get("kind") == "unnamed":
         return run_unnamed(env, c)
+    if c.get("kind") == "dirreload":
+        return run_dirreload(env, c)
     d = env.fresh()
     fpath = (c.get("fault") or {}).get("path")
     disk = {}
